@@ -42,7 +42,7 @@ func main() {
 	opt := drive.Options{Property: prop, Tier: *tier, Seed: seed, Workers: *workers, RepoDir: *repo, VerifDir: *verif,
 		Solver: *solver, OnlyCase: *only, MaxJobs: *maxJobs, NoReplay: *noReplay, TimeoutMs: *timeout, Verbose: *verbose}
 	if opt.TimeoutMs == 0 {
-		opt.TimeoutMs = 4000
+		opt.TimeoutMs = 8000 // (queries of the unchanged tree take milliseconds; the slack is for a loaded machine)
 		if *tier == "thorough" {
 			opt.TimeoutMs = 20000
 		}
